@@ -104,6 +104,16 @@ Theorem C01_tls13_session : forall C, CryptoLaws C -> forall tbl parts keylog a 
 Proof. exact tls13_session. Qed.
 Print Assumptions C01_tls13_session.
 
+(* TLS 1.3 middlebox compatibility (RFC 8446 D.4): a dummy ChangeCipherSpec record anywhere in the connection only sets a flag the
+   TLS 1.3 path never reads: decryptor, handshake buffers and the synchronisation with both senders are untouched; the record is
+   exported as metadata only.  (So the session and connection theorems hold with such records interspersed.) *)
+Theorem C01_tls13_ccs_inert : forall C tbl parts keylog a key_c iv_c key_s iv_s version tag s stc sts n (srv : bool) body,
+  Inv13 a key_c iv_c key_s iv_s tag s stc sts n ->
+  exists s', handle_tls_record C tbl parts keylog s (mk_record 20 version body) srv = Ok (s', [meta_entry (mk_record 20 version body) srv]) /\
+             Inv13 a key_c iv_c key_s iv_s tag s' stc sts n /\ hs_buf s' true = hs_buf s true /\ hs_buf s' false = hs_buf s false /\ ts_decryptor s' = ts_decryptor s.
+Proof. exact tls13_ccs_inert. Qed.
+Print Assumptions C01_tls13_ccs_inert.
+
 (* TLS 1.3, the connection behind the ServerHello.  The server's encrypted flight -- any messages that are not a Finished, then the
    Finished -- and then the client's, each CUT INTO RECORDS AT ANY BYTES (RFC 8446 5.1: grouped or fragmented) and padded at will,
    protected under the handshake keys; then any interleaving of application records of both directions under the application keys.
